@@ -90,6 +90,9 @@ ref::File buildFile(const std::vector<Op> &ops, FileInfo *info) {
     f.h.first = first; f.h.last = nF ? static_cast<unsigned>(first + nF - 1) : ((variant == 2 && (nP || nC)) ? 0 : first);
     f.h.nSub = static_cast<unsigned>(nSub); f.h.rate = floatToBits(prate);
     f.h.maxGap = 10;
+    if (const Op *o = findOp(ops, "frawscale")) {      // arbitrary bit pattern in the scale-factor words; without frames nothing is scaled, so every pattern is well-formed
+        if (nF == 0) { f.h.scale = static_cast<uint32_t>(absmod(o->arg(0), 1LL << 32)); I.tags.insert("raw-scale-factor"); }
+    }
     // ---- header extras ----
     if (const Op *o = findOp(ops, "fhdr")) {
         f.h.maxGap = static_cast<unsigned>(absmod(o->arg(0), 65536));
